@@ -6,7 +6,7 @@ package jmespath
 // in the two runs (sfOrderForks), and each run parses the expression afresh.
 
 var c15Strict = []string{
-	"{x: a, y: b, z: c}", "{x: a, x: b}", "let $p = a, $q = b in [$p, $q]", "let $p = a, $p = b in $p",
+	"{x: a, y: b, z: c}", "{x: a, x: b}", "let $p = a, $q = b in [$p, $q]", "let $p = a, $p = b in $p", "let $p = a, $q = $p in [$p, $q]", "let $p = a, $q = b, $r = $q in $r", "[let $p = a, $q = $p in $q, a]",
 	"merge(a, b)", "merge(a, b, a)", "[length(a), merge(a, b)]", "[merge(a, b), a]", "{n: length(a), m: merge(a, b)}", "[sort(c[*].k), c[*].k]", "{s: sort_by(c, &k), c: c}", "[reverse(c), c]", "group_by(c, &k)", "from_items(c)", "a == b", "length(a)", "sort(keys(a))",
 	"{x: a.x, y: a.y}", "a.x", "to_array(a)[0] == a", "contains([a], b)", "[a, b][?x]", "a && b", "type(a)",
 	"{p: {q: a, r: b}, s: c}", "let $o = {x: a, y: b} in [$o.x, $o.y]", "zip(c, c)", "max_by(c, &k)", "sort_by(c, &k)",
